@@ -681,6 +681,44 @@ func main() {
 		emitStrList("listingMetadataStmts", lst, len(lst) > 0)
 	}
 
+	// --- the caller's slices (C11, second clause): every statement of the mutators that mentions a parameter slice, and every
+	// statement of WriteRecord that mentions the streams it is handed — none stores them in the collection or the span file
+	{
+		uses := func(file, recv, name string, params []string) []string {
+			var out []string
+			fd := method(file, recv, name)
+			if fd == nil {
+				return nil
+			}
+			want := map[string]bool{}
+			for _, p := range params {
+				want[p] = true
+			}
+			for _, st := range fd.Body.List {
+				hit := false
+				ast.Inspect(st, func(x ast.Node) bool {
+					if id, ok := x.(*ast.Ident); ok && want[id.Name] {
+						hit = true
+					}
+					return true
+				})
+				if hit {
+					t := strings.Join(strings.Fields(src(st)), " ")
+					if len(t) > 160 {
+						t = t[:160]
+					}
+					out = append(out, name+": "+t)
+				}
+			}
+			return out
+		}
+		var all []string
+		all = append(all, uses("collection.go", "Collection", "AddDocument", []string{"vector", "metadata", "doc", "dataStreams"})...)
+		all = append(all, uses("collection.go", "Collection", "UpdateDocument", []string{"newMetadata", "dataStreams"})...)
+		all = append(all, uses("spanfile.go", "SpanFile", "WriteRecord", []string{"dataStreams", "span"})...)
+		emitStrList("callerSliceUses", all, len(all) > 0)
+	}
+
 	// --- the glue between Search and the document store (C03/C16 collection-level theorems):
 	// what `consider` reads, what the exact scan and the listing make of an index entry
 	{
